@@ -331,7 +331,16 @@ func (f *FnVC) applyContract(st *State, ct *spec.FuncContract, fn *ssa.Function,
 		f.havocByModset(st, fn, c, args)
 	}
 	f.bumpAlloc(st)
-	res := f.freshVal("ret_"+shortKey(ct.Target), rt)
+	var res Val
+	if ct.Pure && fn != nil && fn.Object() != nil {
+		// pure function: the same uninterpreted symbol the specifications use
+		if tf, ok := fn.Object().(*types.Func); ok {
+			res = f.pureApp(tf.FullName(), args, sig)
+		}
+	}
+	if res.T.S == "" && res.Tuple == nil {
+		res = f.freshVal("ret_"+shortKey(ct.Target), rt)
+	}
 	f.bindResults(env, sig, res)
 	f.assumeKnownDeep(st, res)
 	for _, e := range ct.Ensures {
